@@ -125,49 +125,63 @@ pub fn c07_nesting_body<S: Src>(s: &mut S) {
 }
 
 /// @harness props=C07:Q,C20:T n=3 err=Cheap
-/// @shape any.try_map(span) ; any.validate(span) ; any.foldl_with(t0*, span-of-fold-so-far) ; t0*.foldr_with(any, span-from-item)
+/// @shape any.try_map(span).foldl_with(t0*, span-of-fold-so-far)
 /// @symbolic t0: u8
-/// @aims the span arguments of try_map / validate / foldl_with / foldr_with
+/// @aims the span arguments of try_map and foldl_with (from the START of the fold to the current position)
 pub fn c07_callbacks_body<S: Src>(s: &mut S) {
     let t = [s.u8()];
     let inp = Inp::<3>::any(s);
     let x = inp.get();
     let j = |c: u8| just::<u8, IB, XB>(c);
-    // (start, end) pairs recorded by each callback, checked after the parse
-    let tm = any::<IB, XB>().try_map(|_t: u8, sp: SimpleSpan| Ok::<_, Cheap>((sp.start, sp.end)));
-    let fl = tm.foldl_with(j(t[0]).repeated(), |acc: (usize, usize), _y: u8, e| {
+    let tm = any::<IB, XB>().try_map(|_t: u8, sp: SimpleSpan| Ok::<_, Cheap>((sp.start, sp.end, 0usize)));
+    let fl = tm.foldl_with(j(t[0]).repeated(), |acc: (usize, usize, usize), _y: u8, e| {
         let sp: SimpleSpan = e.span();
         // every fold step sees the span from the START of the fold to the current position, growing by one token
         if sp.start == acc.0 && sp.end == acc.1 + 1 {
-            (sp.start, sp.end)
+            (sp.start, sp.end, acc.2 + 1)
         } else {
-            (99, 99)
+            (99, 99, 99)
         }
     });
+    let r = fl.parse(x);
+    contract(&r);
+    if let Some(l) = r.output() {
+        check!("C07:try_map-and-foldl_with-spans", l.0 == 0 && l.1 == x.len() && l.2 + 1 == x.len());
+    }
+    cover!("cover:accept-fold-two-steps", r.has_output() && x.len() == 3);
+    cover!("cover:reject", !r.has_output());
+}
+
+/// @harness props=C07:Q,C20:T n=3 err=Cheap
+/// @shape t0*.foldr_with(any.validate(span), span-from-this-item-to-the-end)
+/// @symbolic t0: u8
+/// @aims foldr_with: the span of each step runs from the start of THAT item to the end of the fold (not from the start of the whole fold); validate's span
+pub fn c07_foldr_with_body<S: Src>(s: &mut S) {
+    let t = [s.u8()];
+    let inp = Inp::<3>::any(s);
+    let x = inp.get();
+    let j = |c: u8| just::<u8, IB, XB>(c);
     let fr = j(t[0]).repeated().foldr_with(
         any::<IB, XB>().validate(|_t: u8, e, _em| {
             let sp: SimpleSpan = e.span();
-            (sp.start, sp.end)
+            (sp.start, sp.end, 0usize)
         }),
-        |_x: u8, acc: (usize, usize), e| {
+        |_x: u8, acc: (usize, usize, usize), e| {
             let sp: SimpleSpan = e.span();
             // folding from the right: each step's span starts one token earlier and ends where the fold ends
             if sp.end == acc.1 && sp.start + 1 == acc.0 {
-                (sp.start, sp.end)
+                (sp.start, sp.end, acc.2 + 1)
             } else {
-                (99, 99)
+                (99, 99, 99)
             }
         },
     );
-    let r = fl.then(fr.or_not()).parse(x);
+    let r = fr.parse(x);
     contract(&r);
-    if let Some((l, rr)) = r.output() {
-        check!("C07:try_map-and-foldl_with-spans", l.0 == 0 && l.1 >= 1 && l.1 <= x.len());
-        if let Some(rr) = rr {
-            check!("C07:validate-and-foldr_with-spans", rr.0 == l.1 && rr.1 == x.len());
-        }
+    if let Some(rr) = r.output() {
+        check!("C07:validate-and-foldr_with-spans", rr.0 == 0 && rr.1 == x.len() && rr.2 + 1 == x.len());
     }
-    cover!("cover:accept-fold", r.has_output() && x.len() == 3);
+    cover!("cover:accept-fold-two-steps", r.has_output() && x.len() == 3);
     cover!("cover:reject", !r.has_output());
 }
 
@@ -223,6 +237,42 @@ pub fn c07_mapped_nonempty_body<S: Src>(s: &mut S) {
     cover!("cover:reject", !r.has_output());
 }
 
+/// @harness props=C07:Q,C20:T n=3 err=Cheap timeout=900 input=Input::map_over_&[(u8,SimpleSpan)]_gapped_symbolic_spans
+/// @shape (any_ref then any_ref?).to_span then any_ref*   [tokens taken BY REFERENCE: BorrowInput::next_ref], tokens carry gapped spans
+/// @symbolic per token: gap 0..=3, width 1..=3
+/// @aims the by-reference token path of a mapped input keeps the end of the last consumed token: span = first.start .. last.end
+pub fn c07_mapped_ref_body<S: Src>(s: &mut S) {
+    let inp = Inp::<3>::any(s);
+    let x = inp.get();
+    let (toks, total) = gapped(s, x);
+    let toks = &toks[..x.len()];
+    let eoi = SimpleSpan::from(total..total);
+    let input = toks.map(eoi, |(t, s): &(u8, SimpleSpan)| (t, s));
+    type XM<'a> = extra::Err<Cheap>;
+    fn assert_parser<'a, I: chumsky::input::BorrowInput<'a, Token = u8, Span = SimpleSpan>, O, P: Parser<'a, I, O, XM<'a>>>(p: P) -> P {
+        p
+    }
+    let head = any_ref().then(any_ref().or_not()).map_with(|(a, b): (&u8, Option<&u8>), e| {
+        let sp: SimpleSpan = e.span();
+        (*a, b.is_some(), sp)
+    });
+    let p = assert_parser(head.then(any_ref().repeated().to_span()));
+    let r = p.parse(input);
+    contract(&r);
+    if let Some(((a, two, sp), rest)) = r.output() {
+        let n = toks.len();
+        let last = if *two { 1 } else { 0 };
+        check!("C07:by-ref-token-is-the-callers-token", *a == toks[0].0);
+        check!("C07:mapped-span-starts-at-first-token", sp.start == toks[0].1.start);
+        check!("C07:mapped-span-ends-at-last-token", sp.end == toks[last].1.end);
+        if n == 3 {
+            check!("C07:mapped-span-of-following-match", rest.start == toks[2].1.start && rest.end == toks[2].1.end);
+        }
+    }
+    cover!("cover:accept-two-then-rest", r.has_output() && x.len() == 3);
+    cover!("cover:reject", !r.has_output());
+}
+
 /// @harness props=C07:Q,C20:T n=3 err=Cheap timeout=900 finding=F9 input=Input::map_over_&[(u8,SimpleSpan)]_gapped_symbolic_spans
 /// @shape any then empty.to_span() then any     and     empty.to_span() at the very start       (EMPTY matches, gapped spans)
 /// @symbolic per token: gap 0..=3, width 1..=3
@@ -259,6 +309,8 @@ crate::harnesses! {
     c07_str_slices [8] = c07_str_slices_body;
     c07_nesting [6] = c07_nesting_body;
     c07_callbacks [6] = c07_callbacks_body;
+    c07_foldr_with [6] = c07_foldr_with_body;
+    c07_mapped_ref [6] = c07_mapped_ref_body;
     c07_mapped_nonempty [6] = c07_mapped_nonempty_body;
     c07_mapped_empty [6] = c07_mapped_empty_body;
 }
